@@ -58,10 +58,12 @@ def _chain(args):
     for i, mc in enumerate(members):
         texts.append(grouprun.member_text(mc, ident=f"s{i}", extra_comment="source-mode: preceding" if i >= first_prec else None))
     method = rng.choice(["collect_paths", "collect_paths", "next_paths"])
+    # the dialect of the run: what a member hands on is read by the next member with the same delimiter and quote character
+    dia = rng.choice([{}, {}, {"delimiter": ";", "quotechar": '"'}, {"delimiter": "|", "quotechar": "'"}, {"delimiter": "\t", "quotechar": '"'}])
     with scratch.silence():
-        cp = grouprun.setup_project("chain", fs.records, {"g": texts})
+        cp = grouprun.setup_project("chain", fs.records, {"g": texts}, **dia)
         rec, raised = _run_group(cp, "g", method)
-    info = {"texts": texts, "records": fs.records, "method": method, "first_preceding": first_prec}
+    info = {"texts": texts, "records": fs.records, "method": method, "first_preceding": first_prec, "dialect": dia}
     if raised:
         return {"violation": {"kind": "chain", "what": "the chained run raised", "raised": raised, **info}}
     if len(rec.members) != n:
@@ -95,7 +97,8 @@ def _chain(args):
             return {"oom": True}
         traces.append(tr)
         # the stage alone over the input Chain.tla requires: its run in the chain must be that run (SameRun.tla)
-        alone, _ = runtrace.run_case({"tid": idx * 10 + i + 5000000, "prog": mc["prog"], "records": [list(r) for r in required], "cfg": dict(mc["cfg"])}, "collect")
+        alone, _ = runtrace.run_case({"tid": idx * 10 + i + 5000000, "prog": mc["prog"], "records": [list(r) for r in required], "cfg": dict(mc["cfg"]),
+                                      "dialect": dia}, "collect")
         if alone is None:
             return {"oom": True}
         same.append(samerun.case(idx * 10 + i, alone, [samerun.other(tr, "same", lines=False, unmatched=False)]))
